@@ -690,10 +690,19 @@ def units_to_file(cases, path):
 def nest_code(tree, name="n"):
     """a real code object for an MC_Nesting tree: [[mode, subtree], ...]; mode "once" / "twice" /
     "unref" says how many LOAD_CONST instructions reference that code constant"""
-    consts = [None]
+    # every code object holds its own NaN object: two builds of the same subtree are different code objects for
+    # CPython (constants are keyed by identity there) that decode to equal data
+    consts = [None, float("nan")]
     body = bytearray()
-    for k, (mode, sub) in enumerate(tree):
-        child = nest_code(sub, "%s%d" % (name, k))
+    prev = None
+    for k, ent in enumerate(tree):
+        mode, sub = ent[0], ent[1]
+        twin = len(ent) > 2 and ent[2] and prev is not None
+        if twin:
+            child = nest_code(prev[0], prev[1])
+        else:
+            prev = (sub, "%s%d" % (name, k))
+            child = nest_code(sub, prev[1])
         consts.append(child)
         idx = len(consts) - 1
         for _ in range({"once": 1, "twice": 2, "unref": 0}[mode]):
